@@ -35,6 +35,7 @@ func runC10(c *Ctx) {
 	// a transmit error from a worker aborts the scheduler: cancel, wait, return the error
 	scheduleExits(c, "R-C10-4")
 	c10ErrorChain(c)
+	c10TaskWiring(c)
 	c10Classify(c)
 	c10Backoff(c)
 	c10Waits(c)
@@ -149,6 +150,10 @@ func c10Classify(c *Ctx) {
 		}
 	}
 	// exhaustion returns a non-nil error; success inside the loop returns the fresh context
+	nExh := 0
+	defer func() {
+		c.R.Check(nExh >= 1, "R-C10-2", fn+":attempts-bounded", fn, c.pos(ini.Pos()), fmt.Sprintf("%d exhaustion exit(s) recognised", nExh), ">= 1 (the retry loop is bounded by a counter)", "the dial retry loop has no recognisable bound")
+	}()
 	for _, p := range ps {
 		if p.Ret == nil {
 			continue
@@ -156,6 +161,7 @@ func c10Classify(c *Ctx) {
 		for _, a := range p.Atoms {
 			k, _, exit, ok := loopTrip(a)
 			if ok && exit {
+				nExh++
 				c.R.Check(k == 50 && !exprIsNil(p.Results[1]) && exprIsNil(p.Results[0]), "R-C10-2", fn+":attempts", fn, c.pos(p.Ret.Pos()),
 					fmt.Sprintf("loop bound %d; on exhaustion returns (%s, non-nil=%v)", k, p.Results[0], !exprIsNil(p.Results[1])), "at most 50 attempts, then a non-nil error", "dial retry bound differs from the documented 50 attempts")
 			}
@@ -798,10 +804,193 @@ func c10ErrorChain(c *Ctx) {
 				if !hasErrArg {
 					continue
 				}
-				isErr := func(x *an.Expr) bool { return x.Typ != nil && typeStr(x.Typ) == "error" && !(x.Op == an.OpCall && x.Fn != nil && x.Fn.String() == "fmt.Errorf") }
+				isErr := func(x *an.Expr) bool {
+					return x.Typ != nil && typeStr(x.Typ) == "error" && !(x.Op == an.OpCall && x.Fn != nil && x.Fn.String() == "fmt.Errorf")
+				}
 				c.R.Check(wrapsCause(e, isErr), "R-C10-6", c.fname(f)+":wraps-with-%w", c.fname(f), c.pos(ci.Pos()), e.String(),
 					"an error passed up from the task's goroutines is wrapped with %w", "the cause is flattened into text before it reaches Dialer.init")
 			}
 		}
+	}
+}
+
+// c10TaskWiring (R-C10-7/8): what connects a failure inside the task to the
+// dialer's re-establishment logic.
+//
+// R-C10-7: the Dial callbacks of Advertiser.Run and Monitor.Run return the
+// error of advertise()/monitor() unchanged unless it is context.Canceled
+// (clean nil); they panic only for a nil error, which cannot happen.
+//
+// R-C10-8: the link watcher is part of the task: advertise()/monitor() start
+// linkStateWatcher(derived ctx, receiver.watchC) under the errgroup;
+// BuildTasks hands every task the channel subscribed for its own interface's
+// LinkDown events when a watcher exists; linkStateWatcher waits on the channel
+// whenever it is non-nil.
+func c10TaskWiring(c *Ctx) {
+	for _, spec := range [][3]string{{"Advertiser", "Run", "advertise"}, {"Monitor", "Run", "monitor"}} {
+		run := c.needMethod("R-C10-7", "internal/corerad", spec[0], spec[1])
+		if run == nil {
+			continue
+		}
+		fn := c.fname(run)
+		// the closure handed to Dialer.Dial
+		var cb *ssa.Function
+		for _, ci := range an.CallsIn(run) {
+			if an.CallIs(ci.Common(), PkgSystem, "Dialer", "Dial") {
+				args := ci.Common().Args
+				if mc, ok := args[len(args)-1].(*ssa.MakeClosure); ok {
+					cb = mc.Fn.(*ssa.Function)
+				}
+			}
+		}
+		if cb == nil {
+			c.R.Fail("R-C10-7", fn+":dial-callback", fn, c.pos(run.Pos()), "no closure or method value handed to Dialer.Dial", "Run runs the task inside Dialer.Dial", "anchor-missing")
+			continue
+		}
+		n := 0
+		for _, p := range c.pathsO("R-C10-7", cb, an.PathOpts{EmitCut: true}) {
+			var taskErr *an.Expr
+			p.Instrs(func(in ssa.Instruction) {
+				if ci, ok := in.(ssa.CallInstruction); ok && an.CallIs(ci.Common(), PkgCorerad, spec[0], spec[2]) {
+					if v, isV := in.(ssa.Value); isV {
+						taskErr = p.Of(v)
+					}
+				}
+			})
+			if taskErr == nil {
+				continue
+			}
+			canceled, isNil := false, false
+			for _, a := range p.Atoms {
+				if isErrorsCall(a.Cond, "Is") && len(a.Cond.Args) == 2 && sameValue(a.Cond.Args[0], taskErr) && a.Cond.Args[1].Op == an.OpGlobal && a.Cond.Args[1].Name == "context.Canceled" {
+					canceled = a.Pos
+				}
+				x, y, op, ok := effCmp(a)
+				if ok && exprIsNil(y) && sameValue(x, taskErr) {
+					isNil = op == token.EQL
+				}
+			}
+			n++
+			state := fmt.Sprintf("canceled=%v,nil=%v", canceled, isNil)
+			key := fmt.Sprintf("%s:task-error@%s", fn, state)
+			switch {
+			case p.Panic != nil:
+				c.R.Check(isNil && !canceled, "R-C10-7", key, fn, c.pos(cb.Pos()), "panics with "+state, "a panic only for the impossible nil task error", "a task failure crashes the daemon instead of being handed to the dialer")
+			case p.Ret != nil && canceled:
+				c.R.Check(exprIsNil(p.Results[0]), "R-C10-7", key, fn, c.pos(p.Ret.Pos()), "returns "+p.Results[0].String(), "nil on cancellation", "shutdown reported as a task error")
+			case p.Ret != nil:
+				tz := taskErr
+				c.R.Check(wrapsCause(p.Results[0], func(e *an.Expr) bool { return sameValue(e, tz) }), "R-C10-7", key, fn, c.pos(p.Ret.Pos()), "returns "+p.Results[0].String(),
+					"the task's error, unchanged or %w-wrapped", "the failure never reaches Dialer.init: the task is not re-established (or the cause is lost)")
+			}
+		}
+		c.R.Check(n >= 3, "R-C10-7", fn+":task-exits", fn, c.pos(cb.Pos()), fmt.Sprintf("%d exit path(s) after the task returned", n), ">= 3 (canceled, nil, other)", "anchor-missing")
+
+		// R-C10-8: link watcher goroutine
+		task := c.needMethod("R-C10-8", "internal/corerad", spec[0], spec[2])
+		if task == nil {
+			continue
+		}
+		tn := c.fname(task)
+		okLW := false
+		fact := "no eg.Go(linkStateWatcher(...)) found"
+		for _, ci := range an.CallsIn(task) {
+			fo := an.CalleeObj(ci.Common())
+			if fo == nil || fo.Name() != "Go" || fo.Pkg() == nil || fo.Pkg().Path() != "golang.org/x/sync/errgroup" {
+				continue
+			}
+			args := ci.Common().Args
+			e := c.XO.Of(args[len(args)-1])
+			if !exprCallIs(e, PkgCorerad, "", "linkStateWatcher") || len(e.Args) != 2 {
+				continue
+			}
+			ctxOK := e.Args[0].Contains(func(x *an.Expr) bool {
+				return x.Op == an.OpCall && x.Fn != nil && x.Fn.String() == "golang.org/x/sync/errgroup.WithContext"
+			})
+			chOK := e.Args[1].IsField("watchC")
+			fact = fmt.Sprintf("eg.Go(linkStateWatcher(%s, %s))", e.Args[0], e.Args[1])
+			okLW = ctxOK && chOK
+		}
+		c.R.Check(okLW, "R-C10-8", tn+":link-watcher-goroutine", tn, c.pos(task.Pos()), fact,
+			"linkStateWatcher(group context, receiver.watchC) runs under the task's errgroup", "a link change no longer ends the task: the interface is not re-initialised")
+	}
+	// BuildTasks subscribes each interface for LinkDown and hands the channel to its task
+	if bt := c.needMethod("R-C10-8", "internal/corerad", "Server", "BuildTasks"); bt != nil {
+		fn := c.fname(bt)
+		n, bad := 0, ""
+		for _, p := range c.pathsO("R-C10-8", bt, an.PathOpts{EmitCut: true}) {
+			hasWatcher, tested := false, false
+			for _, a := range p.Atoms {
+				x, y, op, ok := effCmp(a)
+				if ok && exprIsNil(y) && x.IsField("w") {
+					tested = true
+					hasWatcher = op == token.NEQ
+				}
+			}
+			p.Instrs(func(in ssa.Instruction) {
+				ci, ok := in.(ssa.CallInstruction)
+				if !ok {
+					return
+				}
+				var ch *an.Expr
+				switch {
+				case an.CallIs(ci.Common(), PkgCorerad, "", "NewAdvertiser"):
+					ch = p.Of(ci.Common().Args[3])
+				case an.CallIs(ci.Common(), PkgCorerad, "", "NewMonitor"):
+					ch = p.Of(ci.Common().Args[3])
+				default:
+					return
+				}
+				n++
+				if !tested {
+					bad = "task built without testing whether a watcher exists"
+					return
+				}
+				if hasWatcher {
+					okSub := exprCallIs(ch, PkgNet, "Watcher", "Subscribe") && len(ch.Args) == 3 && ch.Args[1].IsField("Name") && ch.Args[1].Args[0].Op == an.OpElem
+					if k, isC := ch.Args[len(ch.Args)-1].ConstInt(); !okSub || !isC || k != 2 {
+						bad = "watch channel = " + ch.String()
+					}
+				} else if !(exprIsNil(ch) || exprIsZero(ch)) {
+					bad = "no watcher, yet watch channel = " + ch.String()
+				}
+			})
+		}
+		if bad == "" {
+			bad = fmt.Sprintf("%d task construction(s), all given Watcher.Subscribe(this interface's name, LinkDown) when a watcher exists", n)
+		}
+		c.R.Check(n >= 2 && !strings.HasPrefix(bad, "watch") && !strings.HasPrefix(bad, "no watcher") && !strings.HasPrefix(bad, "task built"), "R-C10-8", fn+":subscribes-link-down", fn, c.pos(bt.Pos()), bad,
+			"every advertiser/monitor gets the channel subscribed for its own interface's LinkDown events", "link changes of the interface are not delivered to its task")
+	}
+	// linkStateWatcher only gives up without waiting when there is no channel
+	if lw := c.needFunc("R-C10-8", "internal/corerad", "linkStateWatcher"); lw != nil && len(lw.AnonFuncs) >= 1 {
+		cl := lw.AnonFuncs[0]
+		okNil := true
+		nSel := 0
+		for _, p := range c.pathsO("R-C10-8", cl, an.PathOpts{}) {
+			if p.Ret == nil {
+				continue
+			}
+			waits := len(selectArmsOf(p)) > 0
+			if waits {
+				nSel++
+			}
+			isNilCh, tested := false, false
+			for _, a := range p.Atoms {
+				x, y, op, ok := effCmp(a)
+				if ok && exprIsNil(y) && strings.Contains(x.String(), "watchC") {
+					tested = true
+					isNilCh = op == token.EQL
+				}
+			}
+			if tested && !isNilCh && !waits {
+				okNil = false // a real channel, yet no wait
+			}
+			if tested && isNilCh && waits {
+				okNil = false // waits on a nil channel
+			}
+		}
+		c.R.Check(okNil && nSel >= 1, "R-C10-8", c.fname(lw)+":waits-when-channel-exists", c.fname(lw), c.pos(lw.Pos()), fmt.Sprintf("%d waiting path(s); nil-channel handling consistent=%v", nSel, okNil),
+			"returns at once only for a nil channel; otherwise waits for ctx.Done() or an event", "the link watcher exits immediately although a channel exists")
 	}
 }
